@@ -121,6 +121,14 @@ def gen_case(rng):
             tot = sum(p for _, p in rows)
             spec['terms'][lab] = [[v, p / tot] for v, p in rows]
             spec['terms'][lab].sort(key=lambda r: -r[1])
+    if kind == 'edited' and rng.random() < 0.5:
+        # one table (or the base-structure list) written on another scale: every probability multiplied by the same tiny factor.  The walk normalises by the
+        # list total, so the distribution is what it was
+        f = rng.choice([1e-17, 1e-30, 1e-200, 3e-16])
+        lab = rng.choice(list(spec['terms']) + ['base'])
+        rows = spec['base'] if lab == 'base' else spec['terms'][lab]
+        for r in rows:
+            r[1] = r[1] * f
     return {'kind': kind, 'spec': spec, 'flags': {'skip_brute': rng.random() < 0.4}, 'hseed': rng.getrandbits(32)}
 
 def check_case(run, case):
